@@ -47,9 +47,9 @@ def plan(tier, seed):
     descs = [{"kind": "fixed"}]
     descs += [{"kind": "enum", "lo": lo, "hi": min(lo + ENUM_CHUNK, n_enum), "smax": smax, "seed": seed}
               for lo in range(0, n_enum, ENUM_CHUNK)]
-    n_rand = 24000 if tier == "quick" else 240000
-    n_text = 100000 if tier == "quick" else 1000000
-    n_sets = 30000 if tier == "quick" else 300000
+    n_rand = 12000 if tier == "quick" else 120000
+    n_text = 60000 if tier == "quick" else 600000
+    n_sets = 15000 if tier == "quick" else 150000
     nshapes = 6 if tier == "quick" else 12
     descs += [{"kind": "rand", "seed": seed, "batch": b, "n": RAND_BATCH, "nshapes": nshapes}
               for b in range(n_rand // RAND_BATCH)]
